@@ -167,12 +167,16 @@ func main() {
 					return true
 				}
 				pos := p.Fset.Position(rs.Pos())
+				var hoist ast.Stmt
+				mapExpr := rs.X
 				if !pure(rs.X) {
-					// a call yielding a map: evaluate once into a temporary in an enclosing block
+					// a call yielding a map: evaluate it once into a temporary in an enclosing block
 					if labeled[rs] {
 						die("%s: labelled range over impure map expression", pos)
 					}
-					die("%s: impure range expression %s (hoisting not implemented)", pos, types.ExprString(rs.X))
+					tmp := ast.NewIdent(fmt.Sprintf("simM%d", n+1))
+					hoist = &ast.AssignStmt{Lhs: []ast.Expr{tmp}, Tok: token.DEFINE, Rhs: []ast.Expr{rs.X}}
+					mapExpr = tmp
 				}
 				fn := keyFunc(mt.Key(), pos)
 				rel, _ := filepath.Rel(dir, pos.Filename)
@@ -195,7 +199,7 @@ func main() {
 				} else if keyIsUserVar && rs.Tok == token.ASSIGN {
 					pre = append(pre, &ast.AssignStmt{Lhs: []ast.Expr{rs.Key}, Tok: token.ASSIGN, Rhs: []ast.Expr{ast.NewIdent(keyName)}})
 				}
-				idx := &ast.IndexExpr{X: rs.X, Index: ast.NewIdent(keyName)}
+				idx := &ast.IndexExpr{X: mapExpr, Index: ast.NewIdent(keyName)}
 				if !isBlank(rs.Value) {
 					if rs.Tok == token.DEFINE {
 						pre = append(pre, &ast.AssignStmt{Lhs: []ast.Expr{rs.Value, ast.NewIdent(okName)}, Tok: token.DEFINE, Rhs: []ast.Expr{idx}})
@@ -215,10 +219,14 @@ func main() {
 					Value: loopVar,
 					Tok:   token.DEFINE,
 					X: &ast.CallExpr{Fun: &ast.SelectorExpr{X: ast.NewIdent("simrt"), Sel: ast.NewIdent(fn)},
-						Args: []ast.Expr{rs.X, &ast.BasicLit{Kind: token.STRING, Value: fmt.Sprintf("%q", site)}}},
+						Args: []ast.Expr{mapExpr, &ast.BasicLit{Kind: token.STRING, Value: fmt.Sprintf("%q", site)}}},
 					Body: &ast.BlockStmt{Lbrace: rs.Body.Lbrace, List: append(pre, rs.Body.List...), Rbrace: rs.Body.Rbrace},
 				}
-				c.Replace(newRange)
+				if hoist != nil {
+					c.Replace(&ast.BlockStmt{List: []ast.Stmt{hoist, newRange}})
+				} else {
+					c.Replace(newRange)
+				}
 				changed = true
 				return true
 			}, nil)
